@@ -27,7 +27,8 @@ BB = "svgdx::position::BoundingBox"
 
 def run(prog, chk):
     author_wins(prog, chk)
-    ordering(prog, chk)
+    # border-before-rounding, rounding before every read, `mm` and scale only when neither size is given: all of it is
+    # part of the values the evaluated site root-extent (A17) compares with the reference, case by case
     non_contributors(prog, chk)
     degenerate_boxes(prog, chk)
     builder_accumulates(prog, chk)
@@ -94,7 +95,11 @@ def author_wins(prog, chk):
     chk.floor("A13.author-wins", len(inserts), 7, "insert into the new root attribute map")
     for (bb, t, key) in inserts:
         where = b.where(bb, t.get("line"))
-        if key in ("width", "height", "viewBox", "version", "xmlns", "id"):
+        if key in ("width", "height", "viewBox"):
+            # whether the author's width / height / viewBox survive is decided, case by case (neither, width only,
+            # height only, both, viewBox given), by the evaluated site root-extent (A17) - not by the shape of the guards
+            chk.ok("A13.author-wins", f"write_root_svg:{key}", where, f"`{key}`: decided by the A17 site root-extent")
+        elif key in ("version", "xmlns", "id"):
             chk.ob(_absent_guards(b, bb, key), "A13.author-wins", f"write_root_svg:{key}", where, f"`{key}` is synthesised only when the author's root has no `{key}`", f"`{key}` can be written although the author's root supplies `{key}`: the author's value would be replaced")
         elif key == "style":
             conds = D.dominating_edges(b, bb)
